@@ -5,10 +5,16 @@ package proxy
 // must reach the client only on TLS connections.
 
 import (
+	"bufio"
+	"crypto/tls"
 	"fmt"
+	"io"
+	"net"
+	"net/http"
 	"sort"
 	"strings"
 	"testing"
+	"time"
 
 	"github.com/fabiolb/fabio/internal/verifx"
 )
@@ -69,8 +75,78 @@ func c08Features(cs *cvxCase, clause string) map[string]any {
 	return f
 }
 
+// c08Conn sends the requests of a history one after the other over ONE keep-alive connection to one of fabio's
+// own listeners; what the upstream is told about port and host must follow from each request alone.
+func c08Conn(w *cvxWorld, j *cvxJob) bool {
+	cs := j.cs
+	fail := func(step int, clause, format string, a ...any) {
+		f := c08Features(cs, clause)
+		f["step"] = step
+		verifx.Fail(cs, f, "%s (request %d of %d on one connection)\n  case: %s", fmt.Sprintf(format, a...), step, len(cs.C.Hist), c08Describe(cs))
+	}
+	if len(cs.Conn) != len(cs.C.Hist) {
+		w.errorf("case %d: %d requests, %d expectations", j.id, len(cs.C.Hist), len(cs.Conn))
+		return false
+	}
+	f := w.front(cvxFrontKey(cs))
+	if f == nil {
+		return false
+	}
+	var conn net.Conn
+	var err error
+	if cs.C.TLS {
+		conn, err = tls.Dial("tcp", f.addr, &tls.Config{InsecureSkipVerify: true})
+	} else {
+		conn, err = net.Dial("tcp", f.addr)
+	}
+	if err != nil {
+		w.errorf("case %d: %v", j.id, err)
+		return false
+	}
+	defer conn.Close()
+	conn.SetDeadline(time.Now().Add(60 * time.Second)) // safety net only
+	br := bufio.NewReader(conn)
+	for k, rq := range cs.C.Hist {
+		step := *cs
+		step.C.Hist, step.Conn = nil, nil
+		step.C.Path, step.C.Query, step.C.HostLabel, step.C.RHost = rq.Path, rq.Query, rq.Host, rq.RHost
+		rid := j.id + int64(k+1)<<34
+		w.plans.Store(rid, &cvxPlan{Status: 200, Body: 1})
+		target := cvxJoin(rq.Path)
+		if len(rq.Query) > 0 {
+			target += "?" + cvxQuery(rq.Query)
+		}
+		if _, err := fmt.Fprintf(conn, "GET %s HTTP/1.1\r\nHost: %s\r\n%s: %d\r\n\r\n", target, cvxReqHost(&step), cvxIDHeader, rid); err != nil {
+			w.errorf("case %d request %d: %v", j.id, k+1, err)
+			return false
+		}
+		resp, err := http.ReadResponse(br, nil)
+		if err != nil {
+			w.errorf("case %d request %d: %v", j.id, k+1, err)
+			return false
+		}
+		io.Copy(io.Discard, resp.Body)
+		resp.Body.Close()
+		w.plans.Delete(rid)
+		seen := w.take(rid)
+		if seen == nil {
+			fail(k+1, "upstream-missing", "the upstream was not contacted (client got status %d)", resp.StatusCode)
+			continue
+		}
+		for _, h := range []string{"xfport", "xfhost"} {
+			if msg := cvxCheckHdr(&step, h, cs.Conn[k][h], seen.Header[cvxManagedName[h]]); msg != "" {
+				fail(k+1, h, "upstream saw %s: %s", cvxManagedName[h], msg)
+			}
+		}
+	}
+	return true
+}
+
 func c08Exec(w *cvxWorld, j *cvxJob) bool {
 	cs := j.cs
+	if cs.C.Sub == "conn" {
+		return c08Conn(w, j)
+	}
 	fail := func(clause, format string, a ...any) {
 		verifx.Fail(cs, c08Features(cs, clause), "%s\n  case: %s", fmt.Sprintf(format, a...), c08Describe(cs))
 	}
